@@ -32,6 +32,18 @@ McBNodes == {[kind |-> "none", ops |-> [k \in 1..NKeys |-> [o |-> "none", v |-> 
              [kind |-> "del",  ops |-> [k \in 1..NKeys |-> [o |-> "none", v |-> <<>>]]]}
             \cup {[kind |-> "ops", ops |-> s] : s \in McSegs}
 
+\* lead harvesting: instead of stopping at the first violated invariant, print the
+\* behaviour that reaches each violating state; the leads are replayed against the code (R1)
+Lead(inv) == inv \/ PrintT(<<"BEH", ToJson(hist)>>)
+LeadViewIsRef == Lead(ViewIsRef)
+LeadOverlayIsRef == Lead(OverlayIsRef)
+LeadDirectGetAgrees == Lead(DirectGetAgrees)
+LeadCachedIsRef == Lead(CachedIsRef)
+LeadStoreIsPrefix == Lead(StoreIsPrefix)
+LeadGaugesZeroImpliesPersisted == Lead(GaugesZeroImpliesPersisted)
+LeadDrainedIsPersisted == Lead(DrainedIsPersisted)
+LeadNamesAreRef == Lead(NamesAreRef)
+
 \* one behaviour per explored transition (exhaustive configurations)
 Edge == PrintT(<<"BEH", ToJson(hist')>>)
 
